@@ -24,6 +24,9 @@ CHECKS["C13"] = ("order-kind dataflow (ASC/DESC/UNORDERED) over the lumping func
 CHECKS["C16"] = ("order-kind dataflow per dispatch branch, CFG dominator (must-pass-through) check, abstract interpretation of the parser branches and of get_increments/get_between_radii (symbolic n>=2 and n=1) with exact piecewise sequences",
     "Ascending order on every format branch, non-negativity check before conversion and hash, x10 exactly once, hash provenance, increments and shell-boundary formulas (incl. single radius) decided on the current source. numpy's linspace/arange arithmetic and literal_eval are trusted.", "6 C16")
 
+CHECKS["C19"] = ("exception-escape analysis by abstract interpretation of the real FullGrid constructors and getters over the exhaustive size box (attribute definedness per selected receiver class, exact sequence lengths, argument binding, result shapes)",
+    "For every (n_b, n_o, n_t) of the box and both position modes the constructors and five getters are interpreted abstractly on the current source (sizes are the only concrete data); AttributeError / IndexError / TypeError escapes and wrong result shapes are reported with the call path and the sizes. Errors inside scipy/qhull and value-dependent assertions are not decided.", "6 C19")
+
 NOT_APPLICABLE = {
     "C06": "Cartesian Voronoi cell geometry is produced by qhull and floating-point predicates (polygon vertex ordering, F2); no static abstract domain in reach separates the failing coordinate configurations; the one structural clause is too thin to claim the property (DESIGN.md section 6, C06).",
     "C07": "distinctness/separation/hemisphere membership of computed coordinates are numerical facts; the row-count and unit-norm clauses are already run-time assertions, so a static restatement would only test the presence of those asserts (DESIGN.md section 6, C07).",
